@@ -28,36 +28,44 @@ CONSTANTS Acquirer, Timed, Releaser, N, Variant, None
 Waiter == Acquirer \cup Timed
 Thread == Waiter \cup Releaser
 
-VARIABLES value, il, queue, popped, token, pc, res, todo, acquired, badFalse
-vars == <<value, il, queue, popped, token, pc, res, todo, acquired, badFalse>>
+VARIABLES value, il, queue, popped, token, pc, res, todo, acquired, badFalse,
+          victim    \* victim[t]: the queue entry t's reset_queue_entry erases if t times out (q.last() at enqueue time)
+vars == <<value, il, queue, popped, token, pc, res, todo, acquired, badFalse, victim>>
 Init == /\ value = 0 /\ il = None /\ queue = <<>>
         /\ popped = [t \in Waiter |-> FALSE] /\ token = [t \in Waiter |-> FALSE]
         /\ pc = [t \in Thread |-> "start"] /\ res = [t \in Waiter |-> "none"]
         /\ todo = [r \in Releaser |-> 0] /\ acquired = 0 /\ badFalse = FALSE
+        /\ victim = [t \in Waiter |-> t]
 Without(s, t) == SelectSeq(s, LAMBDA x : x # t)
 Goto(t, p) == pc' = [pc EXCEPT ![t] = p]
 
 Take(t) == /\ pc[t] \in {"start", "woken", "renotify"} /\ il = None /\ il' = t
            /\ Goto(t, CASE pc[t] = "start" -> (IF t \in Releaser THEN "add" ELSE "check")
                         [] pc[t] = "woken" -> "rewait" [] OTHER -> "notify")
-           /\ UNCHANGED <<value, queue, popped, token, res, todo, acquired, badFalse>>
+           /\ UNCHANGED <<value, queue, popped, token, res, todo, acquired, badFalse, victim>>
 (* ---- acquirers ---- *)
+\* variant "timed_push_front" (seeded change C07-3): a timed waiter is put at the front of the queue; the entry
+\* it later erases on a timeout is still "the last one at that time", i.e. somebody else's
+FrontEnq(t) == Variant = "timed_push_front" /\ t \in Timed
 Check(t) ==
     /\ pc[t] = "check" /\ il = t /\ t \in Waiter
     /\ IF value >= 1
           THEN /\ value' = value - 1 /\ acquired' = acquired + 1 /\ res' = [res EXCEPT ![t] = "true"]
-               /\ il' = None /\ Goto(t, "done") /\ UNCHANGED <<queue, popped>>
-          ELSE /\ queue' = Append(queue, t) /\ popped' = [popped EXCEPT ![t] = FALSE]
+               /\ il' = None /\ Goto(t, "done") /\ UNCHANGED <<queue, popped, victim>>
+          ELSE /\ queue' = IF FrontEnq(t) THEN <<t>> \o queue ELSE Append(queue, t)
+               /\ victim' = [victim EXCEPT ![t] = IF FrontEnq(t) /\ queue # <<>> THEN queue[Len(queue)] ELSE t]
+               /\ popped' = [popped EXCEPT ![t] = FALSE]
                /\ il' = None /\ Goto(t, "suspend") /\ UNCHANGED <<value, acquired, res>>
     /\ UNCHANGED <<token, todo, badFalse>>
 Suspend(t) ==
     /\ pc[t] = "suspend"
     /\ \/ token[t] /\ token' = [token EXCEPT ![t] = FALSE]
        \/ t \in Timed /\ ~token[t] /\ UNCHANGED token          \* deadline
-    /\ Goto(t, "woken") /\ UNCHANGED <<value, il, queue, popped, res, todo, acquired, badFalse>>
+    /\ Goto(t, "woken") /\ UNCHANGED <<value, il, queue, popped, res, todo, acquired, badFalse, victim>>
 Rewait(t) ==
     /\ pc[t] = "rewait" /\ il = t
-    /\ queue' = Without(queue, t)
+    /\ queue' = IF popped[t] THEN queue ELSE Without(queue, victim[t])     \* reset_queue_entry: only if not popped
+    /\ UNCHANGED victim
     /\ LET timeout == ~popped[t]
            fail == IF Variant = "timed_false_after_signal" THEN ~timeout ELSE (timeout /\ value < 1)
            blind == Variant = "timed_take_without_recheck" /\ t \in Timed /\ ~timeout
@@ -74,7 +82,7 @@ Rewait(t) ==
 Add(r) ==
     /\ pc[r] = "add" /\ il = r
     /\ value' = value + N[r] /\ todo' = [todo EXCEPT ![r] = N[r]]
-    /\ Goto(r, "notify") /\ UNCHANGED <<il, queue, popped, token, res, acquired, badFalse>>
+    /\ Goto(r, "notify") /\ UNCHANGED <<il, queue, popped, token, res, acquired, badFalse, victim>>
 LoopCond(r) == IF Variant = "notify_while_small" THEN value <= N[r] ELSE value >= 0
 Notify(r) ==
     /\ pc[r] = "notify" /\ il = r
@@ -87,7 +95,7 @@ Notify(r) ==
                /\ todo' = [todo EXCEPT ![r] = @ - 1]
                /\ Goto(r, IF Tail(queue) # <<>> THEN "renotify" ELSE "done")
           ELSE il' = None /\ Goto(r, "done") /\ UNCHANGED <<popped, token, queue, todo>>
-    /\ UNCHANGED <<value, res, acquired, badFalse>>
+    /\ UNCHANGED <<value, res, acquired, badFalse, victim>>
 
 Step(t) == Take(t) \/ Check(t) \/ Suspend(t) \/ Rewait(t) \/ Add(t) \/ Notify(t)
 Next == \E t \in Thread : Step(t)
